@@ -116,7 +116,7 @@ class CellBase(abc.ABC):
     def get_edge_lengths(self) -> FloatListType:
         points = self.points
 
-        return np.array([f.norm(points[edge[1]] - points[edge[0]]) for edge in self.side_indexes])
+        return np.array([f.norm(points[edge[1]] - points[edge[0]]) for edge in self.edge_pairs])
 
     @property
     def quality(self):
